@@ -203,7 +203,7 @@ def validate_file(allev_path, work, par=8):
         # a trace TLC cannot decide within the budget (on the unchanged tree a scenario trace takes 1-2 s; a tree
         # that departs from the model can make the search for a placement of the silent steps explode) is not a
         # verdict: the other oracles of the check go on, and the check ends with exit 2 if none of them decides
-        ok, line, gen, why = validate_one(lines, work, "s%d" % i, timeout=600, undecided_ok=True)
+        ok, line, gen, why = validate_one(lines, work, "s%d" % i, timeout=300, undecided_ok=True)
         return hdr, lines, ok, line, gen, why
 
     with ThreadPoolExecutor(max_workers=par) as ex:
